@@ -475,7 +475,8 @@ class ASTSimplifyMapper(ASTIdentityMapper):
 
             # Expand any inner Blocks.
             if isinstance(next_child, Block):
-                children_queue.extendleft(next_child.children)
+                # extendleft() inserts in reverse order.
+                children_queue.extendleft(reversed(next_child.children))
                 continue
 
             # Merge adjacent conditionals.
